@@ -561,6 +561,12 @@ func genPump(tier string, seed uint64) {
 		emit("pump json cbor nil - %x", lit)
 		emit("pump json json nil - %x", lit)
 	}
+	if tier == "thorough" {
+		// hunks within the decoder's 32 MiB cap, more than the cap in total (the cap is per hunk): still transcoded
+		hunk := append(headBytes(0x60, 12<<20, 0), bytes.Repeat([]byte{0x62}, 12<<20)...)
+		item := append(append(append(append([]byte{0x7f}, hunk...), hunk...), hunk...), 0xff)
+		emit("pump cbor json nil - %s", hexOrDash(item))
+	}
 	emitShapes("pump", tier)
 	// line / indent options whose separator (comma + line + depth * indent) crosses the sizes of the encoder's fixed
 	// scratch areas: nested arrays and maps with at least two entries at every depth, both source formats
